@@ -441,7 +441,8 @@ func c12ErrorScenario(c *core.Ctx) {
 		// an ordinary error that merely WRAPS an issue somewhere in its chain is still an ordinary error
 		sentinel = fmt.Errorf("tag rejected: %w", &z.ZogIssue{Code: "inner_issue", Path: "some.other.path", Message: "inner"})
 	}
-	// a victim that also has a Catch value: its error is not reported (the catch swallows it), but the chain still has to stop there
+	// a victim that also has a Catch value: a transform's error is not one of the failures a catch value stands in for, so it is
+	// reported like any other and the chain stops there
 	catching := victim.Kind.IsPrimitive() && c.R.Intn(4) == 0
 	if catching {
 		victim.Mods = append(victim.Mods, spec.Mod{Op: spec.MCatch, Val: victim.Witness})
@@ -509,9 +510,7 @@ func c12ErrorScenario(c *core.Ctx) {
 			return
 		}
 		if catching {
-			c.NonTrivial(fpf("err-catching|%s|%s|%d|%d", src, mode, victim.ID, which))
 			c.Count("error_scenarios_on_catching_node", 1)
-			continue
 		}
 		// the first error creates an issue; afterwards HasErrored gates every other post-transform, so exactly one issue exists
 		if len(out.Issues) != 1 {
